@@ -17,7 +17,7 @@ VARIABLES fs
 Nbr == IF NbrSet = "quick" THEN {[k |-> "int", t |-> ""], [k |-> "string", t |-> "nmoe"]}
        ELSE {[k |-> "int", t |-> ""], [k |-> "string", t |-> "nmoe"], [k |-> "*int", t |-> "oe"], [k |-> "E1", t |-> ""]}
 Names == <<"Aa", "Bb", "Cc", "Dd">>
-EmbName(k) == IF k \in {"E2", "E3", "E4"} THEN k ELSE "E1"
+EmbName(k) == IF k \in {"E2", "E3", "E4", "R1"} THEN k ELSE IF k = "*P2" THEN "P2" ELSE IF k = "*Q2" THEN "Q2" ELSE "E1"
 Variants(k) == IF k \in TwoVariant THEN {"z", "n"} ELSE {"z", "n", "e"}
 IsNbr(f) == \E x \in Nbr : x.k = f.k /\ x.t = f.t
 \* a name probe (an int field whose name comes from NameMenu: lengths 1..4, all-caps and mixed caps; the three hand-copied
